@@ -25,6 +25,8 @@ def sig(c):
         return "engine:%s" % c.get("chain")
     if fam == "chain":
         return "chain:%s" % c.get("chain")
+    if fam == "enginecsv":
+        return "enginecsv"
     return "script"
 
 
@@ -74,6 +76,9 @@ def describe(c):
                 "accepted although the property forbids it: %s; rejected although it is one of the three allowed spends: %s"
                 % (c.get("chain"), c.get("sequence"), c.get("tx_version"), c.get("flags"), c.get("hash_is_sha256_of"),
                    c.get("same_key"), json.dumps(wrong_acc[:6]), json.dumps(wrong_rej[:6])))
+    if fam == "enginecsv":
+        return "btcd engine on GetOpeningTxScript(csv=%s) (sequence %s, tx version %s, %s flags) accepts %s: not the three shapes with that csv" % (
+            c.get("csv"), c.get("sequence"), c.get("tx_version"), c.get("flags"), json.dumps(c.get("accepted_witness_stacks")))
     if fam == "chain" and c.get("output_script_validated") != c.get("output_script_funded_at_creation"):
         return "%s: the output script funded when the opening tx is created (%s) is not the one the node validates/spends (%s)" % (
             c.get("chain"), c.get("output_script_funded_at_creation"), c.get("output_script_validated"))
@@ -98,6 +103,7 @@ def run(ctx):
     ctx.rules.append("three families: (script) ParamsToTxScript on generated hex strings (valid/invalid/odd, lengths 0..600 incl. every push-opcode boundary, single bytes 0..16/0x81) x csv boundary table, bytes and error compared with the builder model; "
                      "(chain) witness script behind GetOutputScript of the real Bitcoin/Liquid chain objects for params from SwapData.GetOpeningParams (policy CSV) with random real keys: bytes, Coq-disassembly vs generated template, csv vs the text's numbers; "
                      "(engine) btcd txscript.Engine on real P2WSH spends with real ECDSA signatures for EVERY witness stack of <= 4 (thorough: 5) items over 9 tagged items x sequences around the csv and the BIP-68 flag bits x tx versions {0,1,2,3,-1} x standard/consensus flags x hash of 32/33/31-byte secret x distinct/same keys; accepted set compared with the interpreter model (check) and with the three shapes of the property text (monitor). "
+                     "(enginecsv) the same engine comparison for GetOpeningTxScript with 21 other csv values (0, 1, 16/17, 127/128, 2^15, 2^16, 2^22, 2^31 flag, 2^32-1: every AddInt64 encoding and every branch of the number decoding / BIP-112 check), stacks of <= 3 items. "
                      "non-trivial: every case; distinct by input")
     _run(ctx, "c02", thorough=not ctx.quick)
 
